@@ -1,3 +1,5 @@
+pub mod c03;
+pub mod c14;
 pub mod c17;
 pub mod c18;
 pub mod c19;
